@@ -17,7 +17,8 @@
 
 namespace sim::olc {
 
-enum OKind { O_GET = 1, O_INSERT = 2, O_REMOVE = 3, O_SCAN = 4, O_SCAN_FROM = 5, O_SCAN_RANGE = 6, O_QUIESCE = 7 };
+enum OKind { O_GET = 1, O_INSERT = 2, O_REMOVE = 3, O_SCAN = 4, O_SCAN_FROM = 5, O_SCAN_RANGE = 6, O_QUIESCE = 7, O_PAUSE_RESUME = 8, O_SPAWN = 9 };
+// pause_resume: qsbr_pause(); qsbr_resume() between two index operations; spawn: a = index (in Case.threads) of the qsbr_thread to start
 // Op fields: key, key2; insert: a = value id, b = value length; scans: a = forward?, b = halt after b visits (-1 never)
 
 struct PointEv {
@@ -36,7 +37,7 @@ struct ScanEv {
   uint64_t call = 0, ret = 0;
   std::vector<Visit> visits;
 };
-struct ThreadLog { std::vector<PointEv> points; std::vector<ScanEv> scans; uint64_t quiescents = 0; };
+struct ThreadLog { std::vector<PointEv> points; std::vector<ScanEv> scans; uint64_t quiescents = 0, pauses = 0, spawns = 0; };
 
 template <class Key> struct KeyConv;
 template <> struct KeyConv<std::uint64_t> {
@@ -85,7 +86,8 @@ struct Runner {
     }
   }
 
-  static void body(Db* db, const Case* c, int tid, ThreadLog* log) {
+  static void body(Db* db, const Case* c, int tid, std::vector<ThreadLog>* logs) {
+    ThreadLog* log = &(*logs)[static_cast<size_t>(tid - 1)];
     const auto& ops = c->threads[static_cast<size_t>(tid - 1)];
     const int qplace = static_cast<int>(c->knob("qplace", 0));
     const bool hold = c->knob("hold", 0) != 0;
@@ -206,9 +208,30 @@ struct Runner {
           op_end();
           break;
         }
+        case O_PAUSE_RESUME: {
+          // a pause is a quiescent state: views are given up first. Unregistration and re-registration race with the
+          // other threads' index operations, deferred requests and epoch changes.
+          recheck(held, tid);
+          held.clear();
+          op_begin(oi);
+          unodb::this_thread().qsbr_pause();
+          point(K_HARNESS, nullptr);
+          unodb::this_thread().qsbr_resume();
+          op_end();
+          log->pauses++;
+          break;
+        }
+        case O_SPAWN: {
+          const int child = static_cast<int>(o.a) + 1;
+          op_begin(oi);
+          spawn(child, [db, c, child, logs] { body(db, c, child, logs); }, true);
+          op_end();
+          log->spawns++;
+          break;
+        }
         default: break;
       }
-      if (o.kind != O_QUIESCE && (qplace == 0 || (qplace == 2 && (i % 2) == 1))) quiesce();
+      if (o.kind != O_QUIESCE && o.kind != O_PAUSE_RESUME && o.kind != O_SPAWN && (qplace == 0 || (qplace == 2 && (i % 2) == 1))) quiesce();
     }
     recheck(held, tid);
     held.clear();
@@ -367,10 +390,11 @@ struct Runner {
     std::vector<ThreadLog> logs(c.threads.size());
     Db* dbp = db.get();
     const Case* cp = &c;
-    for (size_t t = 0; t < c.threads.size(); t++) {
-      ThreadLog* lg = &logs[t];
+    std::vector<ThreadLog>* lgs = &logs;
+    const size_t ninit = static_cast<size_t>(c.knob("initial_threads", static_cast<int64_t>(c.threads.size())));
+    for (size_t t = 0; t < c.threads.size() && t < ninit; t++) {
       const int tid = static_cast<int>(t) + 1;
-      spawn(tid, [dbp, cp, tid, lg] { body(dbp, cp, tid, lg); }, true);
+      spawn(tid, [dbp, cp, tid, lgs] { body(dbp, cp, tid, lgs); }, true);
     }
     unodb::this_thread().qsbr_pause();
     concurrent_begin();
@@ -422,10 +446,14 @@ struct Runner {
 #else
     (void)db;
 #endif
-    uint64_t scans = 0, visits = 0, q = 0, threw = 0;
+    uint64_t scans = 0, visits = 0, q = 0, threw = 0, pauses = 0, spawns = 0;
+    for (auto& l : logs) { pauses += l.pauses; spawns += l.spawns; }
+    st.bump("qsbr_pause_resume_between_operations", pauses); st.bump("qsbr_threads_started_inside_the_concurrent_phase", spawns);
     for (auto& l : logs) { scans += l.scans.size(); q += l.quiescents; for (auto& s2 : l.scans) visits += s2.visits.size(); for (auto& e : l.points) threw += e.threw; }
     st.bump("concurrent_scans", scans); st.bump("concurrent_scan_visits", visits); st.bump("quiescent_states", q); st.bump("inserts_failed_by_injected_allocation_failure", threw);
     st.bump(c.knob("keykind", 0) ? "programs_byte_string_keys" : "programs_uint64_keys");
+    if (c.knob("varlen", 0)) st.bump("programs_variable_length_byte_string_keys");
+    if (c.knob("varbound", 0)) st.bump("programs_scan_bounds_of_other_lengths_than_stored_keys");
   }
   static Shape prefill_shape(const Case& c) {
     std::set<std::string> keys;
@@ -480,7 +508,14 @@ struct Runner {
       // differ within the first 8 bytes: the probe must keep the key set representable (<= 7-byte compressed paths)
       const size_t pos = std::min<size_t>(k.size() - 1, 7);
       k[pos] = static_cast<char>(static_cast<unsigned char>(k[pos]) ^ 0x55);
-      if (!orc.finals.count(k)) probes.insert(k);
+      // the probe must keep the key set prefix-free as well (keys may have different lengths)
+      bool clash = orc.finals.count(k) != 0;
+      for (auto& other : orc.finals) {
+        const std::string& m = other.first;
+        const size_t n = std::min(m.size(), k.size());
+        if (m.compare(0, n, k, 0, n) == 0) { clash = true; break; }
+      }
+      if (!clash) probes.insert(k);
       if (probes.size() >= 12) break;
     }
     for (auto& k : probes) {
